@@ -32,6 +32,8 @@ func init() {
 				cm["batched"] = batched
 				cm["outaxis"] = outaxis
 				cm["n"] = n
+				// the largest batch also handed over as a view into a larger parent batch
+				cm["views"] = n == batchSizes[len(batchSizes)-1]
 				p.Jobs = append(p.Jobs, Job{Harness: "gonnx.H_C16", Case: cm})
 			}
 		}
